@@ -1,13 +1,14 @@
 #!/bin/sh
-# applies every seeded change in turn and runs the quick check of its property; prints CAUGHT / MISSED
+# applies every seeded change (or those given as arguments) in turn and runs the quick check of its property; prints CAUGHT / MISSED
 cd /verif
-for d in seeded/*/; do
-  id=$(basename "$d"); prop=${id%%-*}
+list="$@"; [ -z "$list" ] && list=$(ls seeded)
+for id in $list; do
+  d=seeded/$id; prop=${id%%-*}
   git -C /repo diff --quiet || { echo "/repo dirty"; exit 2; }
   if ! git -C /repo apply "/verif/$d/patch.diff" 2>/dev/null; then echo "$id: patch does not apply"; continue; fi
   out=$(./vcheck "$prop" --tier quick 2>&1)
   git -C /repo checkout -- .
-  if echo "$out" | grep -q "^VIOLATION property=$prop"; then echo "$id: CAUGHT ($(echo "$out" | grep -c '^VIOLATION') violation lines)";
+  if echo "$out" | grep -q "^VIOLATION property=$prop"; then echo "$id: CAUGHT ($(echo "$out" | grep -c '^VIOLATION') violation lines) $(echo "$out" | grep '^VIOLATION' | head -2 | sed 's/.*replay=//' | tr '\n' ' ' | cut -c1-150)";
   elif echo "$out" | grep -q "CHECKER-ERROR"; then echo "$id: CHECKER-ERROR"; echo "$out" | grep CHECKER-ERROR | head -2 | cut -c1-200;
-  else echo "$id: MISSED"; fi
+  else echo "$id: MISSED"; echo "$out" | grep UNDECIDED | head -3 | cut -c1-200; fi
 done
